@@ -13,6 +13,14 @@ CLAIMED = {
   note="Trusts: the decode of the complete file through a plain reader as the reference; reference SPZ/PTS encoders in the harness; a decoder panic counts as rejection; hang = 2 s process CPU or read-count budget.",
   technique="deterministic simulation: enumerated crash points on a simulated disk + seeded stream delivery faults",
  ),
+ "C12": dict(
+  engine="choice-stream edit-history simulation with save+restart as a generated operation; the pre-save application is the reference",
+  category="exploration",
+  text="Generated edit histories (5-60 operations over all 76 registered node types plus two harness types: create, connect incl. bursts of up to 14 connections on array ports, disconnect, parameter value/name/description for all 11 parameter types, producers, metadata, delete) run on a real generator.App through the calls the edit server makes; 'save + restart' is one more generated operation after which only the bytes of App.Schema() survive: they are loaded into fresh Apps and compared (re-saved bytes, structure through the public schema, artifacts of deterministic producers), and the history continues on the reloaded App; some histories start from the shipped examples/graphs/ufo.json. Sampled histories.",
+  design_ref="DESIGN.md 3.4",
+  note="Trusts: the live pre-save application as the reference; a type-based exclusion list for nondeterministic node types in the artifact clause; parameter defaults and execution counters are not compared. One known finding (root cause in the jbtf dependency) is listed in known_findings.txt.",
+  technique="deterministic simulation: seeded edit histories with crash/restart (only saved bytes survive) against the live pre-restart state",
+ ),
  "C13": dict(
   engine="detsched (seeded scheduler over real goroutines) + race detector + porcupine",
   category="exploration",
